@@ -173,6 +173,8 @@ def main(tier):
             ("&cq = `{1/z}`; z = 0", ["cq", "z = 2", "cq"]),
             # variables that share one container holding a computed value with attributes: representable, must snapshot and restore
             ("&cq = 2 + 3; &cq.x = 7; row = [&cq]; row2 = row", ["row2[0]", "cq + 1", "row[0]"]),
+            # functions with nothing in their body: the snapshot holds an empty text
+            ("func noop() {}; func sp(a) {   }; x = 1", ["noop()", "sp(1)", "[noop(), sp(2), x]"]),
         ]
         for pre, sufs in DIRECTED:
             for _ in range(2):
